@@ -3,26 +3,32 @@
 (* body 0 or 3 bytes, with/without Expect: 100-continue, Connection: close, malformed, oversized), both    *)
 (* body modes, every interleaving of Deliver(1..3) with the server steps.                                  *)
 EXTENDS H1Server
-CONSTANTS MaxReqs
+CONSTANTS MaxReqs,
+          Configs    \* set of <<tracing, index of the failing write (0: none), peer closes inside the last request>>
 
-Shapes == {[hl |-> 2, bl |-> b, expect100 |-> e, close |-> c, bad |-> bd, big |-> bg] :
-              b \in {0, 3}, e \in BOOLEAN, c \in BOOLEAN, bd \in BOOLEAN, bg \in BOOLEAN}
+Shapes == {[hl |-> 2, bl |-> b, expect100 |-> e, close |-> c, hclose |-> hc, bad |-> bd, big |-> bg] :
+              b \in {0, 3}, e \in BOOLEAN, c \in BOOLEAN, hc \in BOOLEAN, bd \in BOOLEAN, bg \in BOOLEAN}
 \* the peer may close in the middle of the last request
 CutLast(rs, cut) == IF cut THEN [rs EXCEPT ![Len(rs)].partial = TRUE] ELSE rs
-Sane == {s \in Shapes : (s.expect100 => s.bl > 0) /\ (s.big => s.bl > 0) /\ ~(s.bad /\ s.big) /\ ~(s.bad /\ s.expect100)}
+Sane == {s \in Shapes : (s.expect100 => s.bl > 0) /\ (s.big => s.bl > 0) /\ ~(s.bad /\ s.big) /\ ~(s.bad /\ s.expect100)
+                         /\ ~(s.hclose /\ (s.close \/ s.bad \/ s.big \/ s.expect100))}
+
+QuickConfigs == {<<FALSE, 0, FALSE>>, <<TRUE, 1, TRUE>>}
+AllConfigs == {<<tr, wf, cut>> : tr \in BOOLEAN, wf \in 0 .. 2, cut \in BOOLEAN}
+PlainConfig == {<<FALSE, 0, FALSE>>}
 
 RECURSIVE Layout(_, _)
 Layout(ss, at) == IF ss = << >> THEN << >>
                   ELSE LET s == Head(ss) IN
                        <<[start |-> at, headEnd |-> at + s.hl, end |-> at + s.hl + s.bl, bodyLen |-> s.bl,
-                          expect100 |-> s.expect100, close |-> s.close, bad |-> s.bad, big |-> s.big, partial |-> FALSE]>>
+                          expect100 |-> s.expect100, close |-> s.close, hclose |-> s.hclose, bad |-> s.bad, big |-> s.big, partial |-> FALSE]>>
                        \o Layout(Tail(ss), at + s.hl + s.bl)
 
 RECURSIVE SeqsUpTo(_, _)
 SeqsUpTo(S, n) == IF n = 0 THEN {<< >>}
                   ELSE LET P == SeqsUpTo(S, n - 1) IN P \cup {Append(p, s) : p \in {q \in P : Len(q) = n - 1}, s \in S}
 
-MCInit == \E ss \in SeqsUpTo(Sane, MaxReqs) \ {<< >>}, st \in BOOLEAN, tr \in BOOLEAN, wf \in 0 .. 1, cut \in BOOLEAN :
-             InitWith(CutLast(Layout(ss, 0), cut), [streaming |-> st, idle |-> "inloop", trace |-> tr, wfail |-> wf])
+MCInit == \E ss \in SeqsUpTo(Sane, MaxReqs) \ {<< >>}, st \in BOOLEAN, c \in Configs :
+             InitWith(CutLast(Layout(ss, 0), c[3]), [streaming |-> st, idle |-> "inloop", trace |-> c[1], wfail |-> c[2]])
 MCSpec == MCInit /\ [][Next]_vars
 =============================================================================
